@@ -1104,6 +1104,7 @@ mod tests {
 #[allow(missing_docs, unused_imports, dead_code, clippy::all, clippy::pedantic, clippy::nursery)]
 pub mod verif_hooks {
     use super::*;
+    pub use super::PackSizer;
 
     pub use super::PackSizer;
 
